@@ -83,6 +83,8 @@ def configure(cfg, modname, mod, attr):
         interp.ctx.event("writer-called", f.tag if isinstance(f, FileObj) else "?", args[1])
         # the writer may write any number of times, each write may fail
         interp.ctx.event("write", getattr(f, "tag", "?"))
+        if isinstance(f, FileObj):
+            f.dirty = True  # text files are buffered: what the writer wrote may still fail to reach the disk at flush / close
         may_raise(interp, "writer")
         return None
 
@@ -408,6 +410,8 @@ def job_write_input():
         def wi(interp, args, kwargs):
             interp.ctx.event("render", args[0].tag if isinstance(args[0], FileObj) else "?")
             interp.ctx.event("write", getattr(args[0], "tag", "?"))
+            if isinstance(args[0], FileObj):
+                args[0].dirty = True  # buffered: the failure of a small write surfaces at flush / close
             may_raise(interp, "write_input")
             return None
 
@@ -627,6 +631,17 @@ for prog, kw in (("nonexisting", {}), ("gaussian", {"template": "{nofield}"}), (
         if prog == "nonexisting": fails.append((prog, "WriteInputError for an unknown program"))
     except Exception as exc:
         fails.append((prog, "write_input raised " + type(exc).__name__))
+# a device without space: small outputs fail when the buffer is flushed at close, large ones inside a write call
+if os.path.exists("/dev/full"):
+    small = full_object()
+    for what, call, want in (("dump_one", lambda: dump_one(small, "/dev/full", fmt="xyz"), DumpError), ("dump_many", lambda: dump_many([small, small], "/dev/full", fmt="xyz"), DumpError), ("write_input", lambda: write_input(small, "/dev/full", "gaussian"), WriteInputError)):
+        cases += 1
+        try:
+            call(); fails.append((what, "writing to a full device reported success"))
+        except want:
+            pass
+        except Exception as exc:
+            fails.append((what, "a write failure at flush/close escaped as " + type(exc).__name__))
 sig = {}
 for f in fails: sig.setdefault(f[-1], f)
 print(json.dumps(dict(cases=cases, nfails=len(fails), kinds={k: repr(v)[:500] for k, v in sig.items()}), default=str))
